@@ -37,13 +37,25 @@ BASE = {
                  1: {"action": "DENY", "src_ip": "10.0.0.2", "src_wildcard_mask": "0.0.0.0", "dst_port": "HTTP", "protocol": "TCP"}},
          "routes": [{"address": "10.0.9.0", "subnet_mask": "255.255.255.0", "next_hop_ip_address": "10.0.1.2", "metric": 3}],
          "default_route": {"next_hop_ip_address": "10.0.1.9"}},
+        {"type": "firewall", "hostname": "fw",
+         "ports": {"external_port": {"ip_address": "10.0.1.2", "subnet_mask": "255.255.255.0"},
+                   "internal_port": {"ip_address": "10.0.3.1", "subnet_mask": "255.255.255.0"},
+                   "dmz_port": {"ip_address": "10.0.4.1", "subnet_mask": "255.255.255.0"}},
+         "acl": {"internal_inbound_acl": {2: {"action": "DENY", "protocol": "UDP"}, 7: {"action": "PERMIT", "src_ip": "10.0.0.2", "src_wildcard_mask": "0.0.0.0"}},
+                 "internal_outbound_acl": {}, "dmz_inbound_acl": {},  # (the loader requires the four internal/dmz lists to be present)
+                 "dmz_outbound_acl": {4: {"action": "PERMIT", "dst_port": "DNS", "protocol": "UDP"}},
+                 "external_inbound_acl": {1: {"action": "DENY", "dst_ip": "10.0.3.9", "dst_wildcard_mask": "0.0.0.0"}}},
+         "routes": [{"address": "10.0.0.0", "subnet_mask": "255.255.255.0", "next_hop_ip_address": "10.0.1.1", "metric": 2},
+                    {"address": "10.0.0.0", "subnet_mask": "255.255.255.0", "next_hop_ip_address": "10.0.1.7", "metric": 5}],
+         "default_route": {"next_hop_ip_address": "10.0.1.1"}},
     ], "links": [
         {"endpoint_a_hostname": "sw", "endpoint_a_port": 1, "endpoint_b_hostname": "pc", "endpoint_b_port": 1, "bandwidth": 250},
         {"endpoint_a_hostname": "sw", "endpoint_a_port": 2, "endpoint_b_hostname": "srv", "endpoint_b_port": 1},
         {"endpoint_a_hostname": "sw", "endpoint_a_port": 3, "endpoint_b_hostname": "rt", "endpoint_b_port": 1},
+        {"endpoint_a_hostname": "rt", "endpoint_a_port": 2, "endpoint_b_hostname": "fw", "endpoint_b_port": 1, "bandwidth": 40},
     ]}}}
 
-PORTS = {"HTTP": 80, "DNS": 53, "POSTGRES_SERVER": 5432, "SSH": 22, "FTP": 21}
+PORTS = {"HTTP": 80, "DNS": 53, "POSTGRES_SERVER": 5432, "SSH": 22, "FTP": 21, "ARP": 219}
 
 
 def node(cfg, name):
@@ -89,6 +101,11 @@ def family():
         vary("router.acl", f"rt extra DENY rule at {pos}", lambda c, pos=pos: node(c, "rt")["acl"].update({pos: {"action": "DENY", "dst_ip": "10.0.0.3", "dst_wildcard_mask": "0.0.0.255", "src_port": "DNS", "protocol": "UDP"}}))
     vary("router", "rt two routes", lambda c: node(c, "rt")["routes"].append({"address": "10.0.8.0", "subnet_mask": "255.255.255.0", "next_hop_ip_address": "10.0.1.3"}))
     vary("router", "rt no default route", lambda c: node(c, "rt").pop("default_route"))
+    vary("software", "pc dns-client with its own dns_server 10.0.0.53", lambda c: node(c, "pc")["services"][0].update(options={"dns_server": "10.0.0.53"}))
+    vary("firewall", "fw route metrics swapped", lambda c: (node(c, "fw")["routes"][0].update(metric=9), node(c, "fw")["routes"][1].update(metric=1)))
+    vary("firewall", "fw extra rule in dmz_inbound_acl at 3", lambda c: node(c, "fw")["acl"].update(dmz_inbound_acl={3: {"action": "DENY", "src_port": "HTTP", "protocol": "TCP"}}))
+    vary("firewall", "fw dmz port address 10.0.4.9", lambda c: node(c, "fw")["ports"]["dmz_port"].update(ip_address="10.0.4.9"))
+    vary("firewall", "fw no default route", lambda c: node(c, "fw").pop("default_route"))
     for bw in (1, 100, 1000):
         vary("links", f"link sw:2-srv:1 bandwidth={bw}", lambda c, bw=bw: c["simulation"]["network"]["links"][1].update(bandwidth=bw))
     return out
@@ -128,6 +145,13 @@ def expected(cfg):
                                  (r.get("protocol") or "").lower() or None) for k, r in n.get("acl", {}).items()}
             e["routes"] = sorted((r["address"], r.get("subnet_mask", "255.255.255.0"), r["next_hop_ip_address"], float(r.get("metric", 0))) for r in n.get("routes", []))
             e["default_route"] = (n.get("default_route") or {}).get("next_hop_ip_address")
+        if n["type"] == "firewall":
+            order = {"external_port": 1, "internal_port": 2, "dmz_port": 3}
+            e["interfaces"] = {order[k]: (v["ip_address"], v.get("subnet_mask", "255.255.255.0")) for k, v in n.get("ports", {}).items()}
+            e["acls"] = {nm: {int(k): (r["action"], r.get("src_ip"), r.get("dst_ip"), PORTS.get(r.get("src_port")), PORTS.get(r.get("dst_port")),
+                                       (r.get("protocol") or "").lower() or None) for k, r in rules.items()} for nm, rules in n.get("acl", {}).items()}
+            e["routes"] = sorted((r["address"], r.get("subnet_mask", "255.255.255.0"), r["next_hop_ip_address"], float(r.get("metric", 0))) for r in n.get("routes", []))
+            e["default_route"] = (n.get("default_route") or {}).get("next_hop_ip_address")
         inv[n["hostname"]] = e
     inv["$links"] = sorted((l["endpoint_a_hostname"], l["endpoint_a_port"], l["endpoint_b_hostname"], l["endpoint_b_port"], float(l.get("bandwidth", 100)))
                            for l in cfg["simulation"]["network"]["links"])
@@ -162,6 +186,8 @@ def built(game, cfg):
                     v = getattr(sw.config, k, None) if hasattr(sw, "config") else None
                     if k == "domain_mapping":
                         v = {a: str(b) for a, b in sw.dns_table.items()}
+                    if k == "dns_server" and v is None:
+                        v = getattr(sw, "dns_server", None)
                     got[k] = v if isinstance(v, dict) else str(v)
                 e["software"][t] = got
         if want["type"] == "router":
@@ -169,6 +195,19 @@ def built(game, cfg):
             e["acl"] = {i: (r.action.name, None if r.src_ip_address is None else str(r.src_ip_address), None if r.dst_ip_address is None else str(r.dst_ip_address),
                             r.src_port, r.dst_port, r.protocol) for i, r in enumerate(nd.acl._acl) if r is not None and i in want["acl"]}
             e["acl_extra_positions"] = sorted(i for i, r in enumerate(nd.acl._acl) if r is not None and i not in want["acl"] and i < 21)
+            e["routes"] = sorted((str(r.address), str(r.subnet_mask), str(r.next_hop_ip_address), float(r.metric)) for r in nd.route_table.routes)
+            dr = nd.route_table.default_route
+            e["default_route"] = None if dr is None else str(dr.next_hop_ip_address)
+        if want["type"] == "firewall":
+            e["interfaces"] = {k: (str(v.ip_address), str(v.subnet_mask)) for k, v in nd.network_interface.items() if k in want["interfaces"]}
+            e["acls"] = {}
+            for nm, rules in want["acls"].items():
+                acl = getattr(nd, nm)
+                e["acls"][nm] = {i: (r.action.name, None if r.src_ip_address is None else str(r.src_ip_address), None if r.dst_ip_address is None else str(r.dst_ip_address),
+                                     r.src_port, r.dst_port, r.protocol) for i, r in enumerate(acl._acl) if r is not None and i in rules}
+                extra = sorted(i for i, r in enumerate(acl._acl) if r is not None and i not in rules and i < 21)
+                if extra:
+                    e["acls"][nm]["$undeclared"] = extra
             e["routes"] = sorted((str(r.address), str(r.subnet_mask), str(r.next_hop_ip_address), float(r.metric)) for r in nd.route_table.routes)
             dr = nd.route_table.default_route
             e["default_route"] = None if dr is None else str(dr.next_hop_ip_address)
